@@ -242,7 +242,7 @@ pub fn run_a(sc: &ScenarioA, keep_events: bool) -> OutcomeA {
     stats.searches = sim.searches.len() as u64;
     stats.polls = sim.searches.iter().map(|s| s.polls).sum();
     stats.nodes = sim.searches.iter().map(|s| s.max_nodes).sum();
-    stats.sim_ns = sim.now_ns - 1_000_000_000;
+    stats.sim_ns = sim.now_ns - 1_000_000_000 - sim.faults.skipped_ns;
     stats.faults = sim.faults.clone();
     stats.lines_out = (gui.transcript.len() + gui.stderr_lines.len()) as u64;
     for (k, v) in gui.probes.iter() {
